@@ -27,7 +27,7 @@ PROPS = {
             "ApplyAgreement"],
     "C17": ["BoundedProgress"],
     "C18": ["OnlyVotersLead", "NonVotingWitnessRoles", "ElectionQuorum", "CommitQuorum",
-            "WitnessNoPayload", "WitnessLogMeta", "ReadIndexMechanism"],
+            "WitnessNoPayload", "WitnessLogMeta", "ReadIndexMechanism", "CheckQuorumLease"],
 }
 
 # which internal assertion (panic) of the code under test is attributed to which property
@@ -122,7 +122,7 @@ def validate_trace_file(scr, path, prevote, checkq, tag, timeout=1800):
             fh.write(TRACE_CFG % (tla_bool(prevote), tla_bool(checkq), name, tla_bool(conformance)))
         res = run_tlc(scr, "RaftTrace", cfg, workers=1, timeout=timeout, deadlock=False,
                       spec_files=[path], tag=tag + (".c" if conformance else ".m"),
-                      jvm=["-Xmx3g"])
+                      jvm=["-Xmx2560m"])
         rep = parse_report(res.out)
         if rep is not None and res.error is None and res.violated is None:
             rep["conformance_evaluated"] = conformance
@@ -144,7 +144,7 @@ def extract_trace(path, tid):
 
 
 def run_rsim_batches(scr, binary, seed, n_batches, traces_per_batch, steps, combos=COMBOS,
-                     workers=14, extra_env=None):
+                     workers=10, extra_env=None):
     """Generate and validate batches in parallel. Returns list of (meta, report)."""
     jobs = []
     k = 0
